@@ -70,7 +70,11 @@ def _generic_mro(result, tp):
         origin = tp
     result[origin] = tp
     if hasattr(origin, "__orig_bases__"):
-        parameters = _collect_type_parameters(origin.__orig_bases__)
+        # an explicit Generic[...] base fixes the order of the parameters, which may not be
+        # the order of their first appearance in the bases
+        parameters = getattr(origin, "__parameters__", None)
+        if not parameters:
+            parameters = _collect_type_parameters(origin.__orig_bases__)
         substitution = dict(zip(parameters, get_args(tp)))
         for base in origin.__orig_bases__:
             if get_origin(base) in result:
